@@ -390,7 +390,7 @@ def real_step(op, d, others):
 # ---------------------------------------------------------------- choosing an operation for the current state
 OP_KINDS = ['set_fit', 'set_scalar', 'set_len1', 'set_misfit', 'set_attr', 'set_existing', 'del_item', 'del_attr', 'update', 'update_misfit',
             'call_const', 'call_list', 'call_misfit', 'derive', 'derive2', 'sub', 'sub_list', 'sub_absent', 'slice', 'slice_step', 'mask', 'mask_none',
-            'take', 'take_empty', 'project', 'relabel_kw', 'relabel_fn', 'relabel_prefix', 'relabel_suffix', 'rename', 'relabel_dict', 'do_all', 'do_cols', 'do_list', 'do_other',
+            'take', 'take_empty', 'project', 'relabel_kw', 'relabel_fn', 'relabel_prefix', 'relabel_suffix', 'rename', 'relabel_dict', 'do_all', 'do_cols', 'do_list', 'do_other', 'do_other_chain',
             'add_table', 'add_disjoint', 'add_empty', 'add_norows', 'radd_table', 'add_record', 'add_records', 'add_none', 'sum', 'concat', 'concat_list',
             'inc', 'exc', 'sort', 'copy', 'rebuild_records', 'rebuild_columns', 'rebuild_rows']
 
@@ -535,6 +535,11 @@ def make_op(kind, m, rng):
             return None
         c1, c2 = rng.sample(m.cols, 2)
         return dict(op='do', fns=['with_other'], cols=[c1], other=c2, spell='args'), []
+    if kind == 'do_other_chain':          # the column handed over as the extra argument is itself transformed earlier in the same call: the later column sees its new cells
+        if len(m.cols) < 2:
+            return None
+        c1, c2 = rng.sample(m.cols, 2)
+        return dict(op='do', fns=['with_other'], cols=[c2, c1], other=c2, spell=rng.choice(['args', 'list'])), []
     if kind == 'add_table':
         return dict(op='add', how='add'), [gen_table(rng, cols=rng.choice([list(m.cols) or ['a'], rng.sample(NAMES, 2)]))]
     if kind == 'add_disjoint':
